@@ -10,6 +10,11 @@
 (* pos of the case's string running over 0..255):                           *)
 (*   {"op":"ES","pos":p,"c":[[input, [elen,p1,p2,dlen,dp, ... 256 x 5]], ...]}  *)
 (*   {"op":"DS","pos":p,"c":[[text, [[lo,hi,v], ...]], ...]}   (run-length)    *)
+(* Round 4, composed calls whose arguments TLC enumerated (Base64Gen.tla):   *)
+(*   {"op":"R","c":[[t, decode(t), encode(decode(t))], ...]}                *)
+(*   {"op":"X","c":[[a, b, decode(encode(a) + encode(b)), encode(a + b), encode(a)], ...]}  *)
+(* checked against L1 AND against the closed forms of ReencodeLaws /        *)
+(* ConcatLaws.                                                              *)
 (* see harness/base64/driver.cpp for the packing; TLC evaluates L1 for each *)
 (* of the 256 strings of a case.                                            *)
 (* Every case is one TLC state <<l, j>> (line, case in line); the next      *)
@@ -25,7 +30,7 @@ VARIABLES l, j
 
 Table == ndJsonDeserialize(IOEnv.TRACE)
 
-Ops == {"E", "D", "ES", "DS"}
+Ops == {"E", "D", "ES", "DS", "R", "X"}
 
 (* ---- packing used by the sweep ops (strings of at most 4 / 3 elements as numbers below 2^31) *)
 Pack2(e, i)  == ByteOr0(e, i) * 256 + ByteOr0(e, i + 1)
@@ -50,6 +55,22 @@ ShapeOK(c) == /\ Len(c[2]) = EncLen(Len(c[1]))
               /\ \A i \in (AlphaRun(c[2]) + 1)..Len(c[2]) : c[2][i] = Pad
               /\ DecodePrefix(c[2]) = c[1]
 
+(* round 4: composed calls *)
+ROK(c) == LET t == c[1]
+              n == AlphaRun(t) IN
+          /\ c[2] = DecodePrefix(t)
+          /\ c[3] = Encode(c[2])
+          /\ Len(c[3]) = 4 * ((DecLen(n) + 2) \div 3)                          \* closed forms (ReencodeLaws) on the RECORDED values
+          /\ \A i \in 1..((8 * Len(c[2])) \div 6) : i <= Len(c[3]) /\ c[3][i] = t[i]
+          /\ n % 4 = 0 => c[3] = SubSeq(t, 1, n)
+XOK(c) == LET a == c[1]
+              b == c[2] IN
+          /\ c[5] = Encode(a)
+          /\ c[3] = DecodePrefix(Encode(a) \o Encode(b))
+          /\ c[3] = (IF Len(a) % 3 = 0 THEN a \o b ELSE a)                     \* closed form (ConcatLaws)
+          /\ c[4] = Encode(a \o b)
+          /\ Len(a) % 3 = 0 => c[4] = c[5] \o Encode(b)
+
 Expected(e, c) ==
     IF e.op = "E" THEN [encode |-> Encode(c[1]), decode_of_encode |-> c[1]]
     ELSE IF e.op = "D" THEN [decode |-> DecodePrefix(c[1])]
@@ -62,6 +83,9 @@ Expected(e, c) ==
          ELSE LET k == CHOOSE k \in 1..Len(c[2]) : \E v \in c[2][k][1]..c[2][k][2] : DSVal(Subst(c[1], e.pos, v)) # c[2][k][3]
                   v == CHOOSE v \in c[2][k][1]..c[2][k][2] : DSVal(Subst(c[1], e.pos, v)) # c[2][k][3] IN
               [text |-> Subst(c[1], e.pos, v), decode |-> DecodePrefix(Subst(c[1], e.pos, v))]
+    ELSE IF e.op = "R" THEN [decode |-> DecodePrefix(c[1]), encode_of_decode |-> Encode(DecodePrefix(c[1]))]
+    ELSE IF e.op = "X" THEN [decode_of_concatenated_encodings |-> DecodePrefix(Encode(c[1]) \o Encode(c[2])),
+                             encode_of_concatenation |-> Encode(c[1] \o c[2]), encode_a |-> Encode(c[1])]
     ELSE [no_such_op |-> e.op]
 
 CaseOK(e, c) ==
@@ -73,6 +97,8 @@ CaseOK(e, c) ==
        /\ c[2] = DecodePrefix(c[1])
     \/ /\ e.op = "ES" /\ ESOK(e, c)
     \/ /\ e.op = "DS" /\ DSOK(e, c)
+    \/ /\ e.op = "R" /\ ROK(c)
+    \/ /\ e.op = "X" /\ XOK(c)
 
 TInit == l = 1 /\ j = 1
 
